@@ -16,6 +16,7 @@ package genetics
 // ---- C01: ordered insertion (the mechanism every mutator and crossover relies on) ----------------
 //@ func geneInsert
 //@   props C01
+//@   modifies Mem[*Gene]
 //@   requires g != nil
 //@   requires nonNilGenes(genes)
 //@   requires sortedLE(genes)
@@ -25,6 +26,8 @@ package genetics
 //@   ensures [insert] exists k :: 0 <= k && k < len(result) && result[k] == g && (forall i :: 0 <= i && i < k ==> result[i] == old(genes[i])) && (forall i :: k < i && i < len(result) ==> result[i] == old(genes[i-1]))
 //@   ensures [keep] unchanged(genes)
 //@   ensures [shift] forall i :: 0 <= i && i < len(genes) ==> old(genes[i]) == result[i] || old(genes[i]) == result[i+1]
+//@   ensures [memFrame] forall b :: wasAllocated(b) && b != base(genes) ==> Mem[*Gene][b] == old(Mem[*Gene][b])
+//@   ensures [where] fresh(result) || base(result) == base(genes)
 //@   ensures [nonnil] nonNilGenes(result)
 //@   loop 1:
 //@     invariant -1 <= i && i <= index - 1 && index <= len(genes)
@@ -32,6 +35,7 @@ package genetics
 //@     invariant index == 0 ==> g.InnovationNum <= genes[0].InnovationNum
 //@ func nodeInsert
 //@   props C01
+//@   modifies Mem[*network.NNode]
 //@   requires n != nil
 //@   requires nonNilNodes(nodes)
 //@   requires sortedNodesLE(nodes)
@@ -41,6 +45,8 @@ package genetics
 //@   ensures [insert] exists k :: 0 <= k && k < len(result) && result[k] == n && (forall i :: 0 <= i && i < k ==> result[i] == old(nodes[i])) && (forall i :: k < i && i < len(result) ==> result[i] == old(nodes[i-1]))
 //@   ensures [keep] unchanged(nodes)
 //@   ensures [shift] forall i :: 0 <= i && i < len(nodes) ==> old(nodes[i]) == result[i] || old(nodes[i]) == result[i+1]
+//@   ensures [memFrame] forall b :: wasAllocated(b) && b != base(nodes) ==> Mem[*network.NNode][b] == old(Mem[*network.NNode][b])
+//@   ensures [where] fresh(result) || base(result) == base(nodes)
 //@   ensures [nonnil] nonNilNodes(result)
 //@   loop 1:
 //@     invariant -1 <= i && i <= index - 1 && index <= len(nodes)
@@ -401,3 +407,83 @@ package genetics
 //@   ensures [recordForgotten] result == nil ==> len(pop.innovations) == 0
 //@   loop 1:
 //@     invariant -1 <= #idx && len(pop.innovations) == 0
+
+// ---- C04: crossover ---------------------------------------------------------------------------------
+//@ func (*Genome).mateTraits
+//@   props C04
+//@   requires g != nil && og != nil && nonNilTraits(g.Traits) && nonNilTraits(og.Traits) && len(g.Traits) == len(og.Traits) && neat.ErrTraitsParametersCountMismatch != nil
+//@   requires forall i :: 0 <= i && i < len(g.Traits) ==> len(g.Traits[i].Params) == len(og.Traits[i].Params)
+//@   modifies nothing
+//@   ensures [ok] result1 == nil && len(result0) == len(g.Traits) && fresh(result0)
+//@   ensures [avg] forall i :: 0 <= i && i < len(g.Traits) ==> result0[i] != nil && fresh(result0[i]) && fresh(result0[i].Params) && result0[i].Id == g.Traits[i].Id && len(result0[i].Params) == len(g.Traits[i].Params) && (forall k :: 0 <= k && k < len(g.Traits[i].Params) ==> result0[i].Params[k] == (g.Traits[i].Params[k] + og.Traits[i].Params[k]) / 2.0)
+//@   loop 1:
+//@     invariant -1 <= #idx && #idx < len(g.Traits) && len(newTraits) == len(g.Traits) && fresh(newTraits) && err == nil
+//@     invariant forall i :: 0 <= i && i <= #idx ==> newTraits[i] != nil && fresh(newTraits[i]) && fresh(newTraits[i].Params) && newTraits[i].Id == g.Traits[i].Id && len(newTraits[i].Params) == len(g.Traits[i].Params) && (newTraits[i].Params == nil || allocated(newTraits[i].Params)) && allocated(newTraits[i])
+//@     invariant forall i :: 0 <= i && i <= #idx ==> (forall k :: 0 <= k && k < len(g.Traits[i].Params) ==> newTraits[i].Params[k] == (g.Traits[i].Params[k] + og.Traits[i].Params[k]) / 2.0)
+
+// A child gene c descends from parent gene s: same innovation and mutation number, endpoints with the same ids, same recurrence flag and weight.
+//@ pred fromGene(c *Gene, s *Gene) = c.InnovationNum == s.InnovationNum && c.MutationNum == s.MutationNum && c.Link.InNode.Id == s.Link.InNode.Id && c.Link.OutNode.Id == s.Link.OutNode.Id && c.Link.IsRecurrent == s.Link.IsRecurrent && c.Link.ConnectionWeight == s.Link.ConnectionWeight
+// Parents: the shape the crossovers rely on (trait ids consecutive, every trait reference within the trait list -- "trait ids consecutive as in every shipped genome").
+//@ pred traitInRange(t *neat.Trait, g *Genome) = t == nil || (g.Traits[0].Id <= t.Id && t.Id < g.Traits[0].Id + len(g.Traits))
+//@ pred parentShape(p *Genome, g *Genome) = p != nil && nonNilGenes(p.Genes) && geneLinksWF(p.Genes) && sortedLT(p.Genes) && nonNilNodes(p.Nodes) && nonNilTraits(p.Traits) && len(p.ControlGenes) == 0 && (forall i :: 0 <= i && i < len(p.Nodes) ==> traitInRange(p.Nodes[i].Trait, g)) && (forall i :: 0 <= i && i < len(p.Genes) ==> traitInRange(p.Genes[i].Link.Trait, g) && traitInRange(p.Genes[i].Link.InNode.Trait, g) && traitInRange(p.Genes[i].Link.OutNode.Trait, g))
+//@ func newGenome
+//@   props C04
+//@   requires nonNilNodes(nodes)
+//@   modifies nothing
+//@   ensures [fields] result != nil && fresh(result) && result.Id == id && sameSlice(result.Traits, traits) && sameSlice(result.Nodes, nodes) && sameSlice(result.Genes, genes) && sameSlice(result.ControlGenes, mimoG) && result.nodeByIdMap != nil && fresh(result.nodeByIdMap)
+//@   ensures [index] forall i :: 0 <= i && i < len(nodes) ==> mapHas(result.nodeByIdMap, nodes[i].Id)
+//@   loop 1:
+//@     invariant -1 <= #idx && #idx < len(nodes) && nodeByIdMap != nil && fresh(nodeByIdMap)
+//@     invariant forall i :: 0 <= i && i <= #idx ==> mapHas(nodeByIdMap, nodes[i].Id)
+// Modular genomes are outside the crossover contracts of this revision (see C01's quantifier): unreachable under the precondition.
+//@ func (*Genome).mateModules
+//@   requires [nonModularOnly] false
+// Ghost witness for [provenance]: for the child's k-th gene, v = gSrc[k] names the parent gene it was copied from:
+// g.Genes[v] when v >= 0, og.Genes[-v-1] when v < 0. Assigned where the copy is made, so the witness is the code's own choice.
+//@ ghost gSrc (Array Int Int)
+//@ func (*Genome).mateMultipoint
+//@   props C04
+//@   mode nosafety
+//@   assert [a9new] (i1 < size1 ==> result.InnovationNum < g.Genes[i1].InnovationNum) && (i2 < size2 ==> result.InnovationNum < og.Genes[i2].InnovationNum) @ after 1 NewGeneCopy
+//@   assert [a9old] forall k :: 0 <= k && k < len(newGenes) ==> (i1 < size1 ==> newGenes[k].InnovationNum < g.Genes[i1].InnovationNum) && (i2 < size2 ==> newGenes[k].InnovationNum < og.Genes[i2].InnovationNum) @ after 1 NewGeneCopy
+//@   set gSrc = upd(gSrc, len(newGenes), (i1 > 0 && chosenGene == g.Genes[i1-1]) ? i1-1 : 0-i2) @ after 1 NewGeneCopy
+//@   requires g != nil && og != nil && parentShape(g, g) && parentShape(og, g) && len(g.Traits) == len(og.Traits) && len(g.Traits) >= 1 && neat.ErrTraitsParametersCountMismatch != nil
+//@   requires forall i :: 0 <= i && i < len(g.Traits) ==> len(g.Traits[i].Params) == len(og.Traits[i].Params)
+//@   modifies ghost gSrc
+//@   ensures [ok] result1 == nil && result0 != nil && fresh(result0) && result0.Id == genomeId
+//@   ensures [traits] len(result0.Traits) == len(g.Traits) && (forall i :: 0 <= i && i < len(g.Traits) ==> result0.Traits[i].Id == g.Traits[i].Id && (forall k :: 0 <= k && k < len(g.Traits[i].Params) ==> result0.Traits[i].Params[k] == (g.Traits[i].Params[k] + og.Traits[i].Params[k]) / 2.0))
+//@   ensures [once] sortedLT(result0.Genes)
+//@   ensures [provenance] forall k :: 0 <= k && k < len(result0.Genes) ==> (exists a :: 0 <= a && a < len(g.Genes) && fromGene(result0.Genes[k], g.Genes[a])) || (exists b :: 0 <= b && b < len(og.Genes) && fromGene(result0.Genes[k], og.Genes[b]))
+//@   loop 1:
+//@     invariant -1 <= #idx && len(newTraits) == len(g.Traits) && childNodesMap != nil && fresh(childNodesMap) && len(newGenes) == 0 && fresh(newGenes) && fresh(newNodes)
+//@     invariant forall i :: 0 <= i && i < len(newTraits) ==> newTraits[i] != nil && newTraits[i].Id == g.Traits[i].Id && (forall k :: 0 <= k && k < len(g.Traits[i].Params) ==> newTraits[i].Params[k] == (g.Traits[i].Params[k] + og.Traits[i].Params[k]) / 2.0)
+//@     invariant nonNilNodes(newNodes) && sortedNodesLE(newNodes)
+//@     invariant forall b :: wasAllocated(b) ==> Mem[*network.NNode][b] == old(Mem[*network.NNode][b])
+//@   loop 2:
+//@     invariant 0 <= i1 && i1 <= size1 && 0 <= i2 && i2 <= size2 && size1 == len(g.Genes) && size2 == len(og.Genes) && len(newTraits) == len(g.Traits) && childNodesMap != nil && fresh(childNodesMap)
+//@     invariant forall i :: 0 <= i && i < len(newTraits) ==> newTraits[i] != nil && newTraits[i].Id == g.Traits[i].Id && (forall k :: 0 <= k && k < len(g.Traits[i].Params) ==> newTraits[i].Params[k] == (g.Traits[i].Params[k] + og.Traits[i].Params[k]) / 2.0)
+//@     invariant nonNilNodes(newNodes) && sortedNodesLE(newNodes) && fresh(newNodes) && fresh(newGenes)
+//@     invariant forall k :: 0 <= k && k < len(newGenes) ==> newGenes[k] != nil && fresh(newGenes[k]) && newGenes[k].Link != nil && fresh(newGenes[k].Link) && newGenes[k].Link.InNode != nil && newGenes[k].Link.OutNode != nil
+//@     invariant forall k :: 0 <= k && k < len(newGenes) ==> (sel(gSrc, k) >= 0 ==> sel(gSrc, k) < i1) && (sel(gSrc, k) < 0 ==> 0 - sel(gSrc, k) <= i2)
+//@     invariant forall k :: 0 <= k && k < len(newGenes) && sel(gSrc, k) >= 0 ==> fromGene(newGenes[k], g.Genes[sel(gSrc, k)])
+//@     invariant forall k :: 0 <= k && k < len(newGenes) && sel(gSrc, k) < 0 ==> fromGene(newGenes[k], og.Genes[0 - sel(gSrc, k) - 1])
+//@     invariant sortedLT(newGenes)
+//@     invariant forall k :: 0 <= k && k < len(newGenes) ==> (i1 < size1 ==> newGenes[k].InnovationNum < g.Genes[i1].InnovationNum) && (i2 < size2 ==> newGenes[k].InnovationNum < og.Genes[i2].InnovationNum)
+//@     invariant forall x *Gene :: wasAllocated(x) ==> x.IsEnabled == old(x.IsEnabled)
+//@     invariant forall b :: wasAllocated(b) ==> Mem[*network.NNode][b] == old(Mem[*network.NNode][b])
+//@     invariant forall b :: wasAllocated(b) ==> Mem[*Gene][b] == old(Mem[*Gene][b])
+//@   loop 3:
+//@     invariant -1 <= #idx
+//@     invariant [chosen] chosenGene != nil && ((i1 > 0 && chosenGene == g.Genes[i1-1]) || (i2 > 0 && chosenGene == og.Genes[i2-1]))
+//@     invariant [chosenBelowNext] (i1 < size1 ==> chosenGene.InnovationNum < g.Genes[i1].InnovationNum) && (i2 < size2 ==> chosenGene.InnovationNum < og.Genes[i2].InnovationNum)
+//@     invariant [childBelowChosen] forall k :: 0 <= k && k < len(newGenes) ==> newGenes[k].InnovationNum < chosenGene.InnovationNum
+//@   loop 4:
+//@     invariant -1 <= #idx && (newInNode != nil ==> newInNode.Id == inNode.Id)
+//@     invariant [chosen] chosenGene != nil && ((i1 > 0 && chosenGene == g.Genes[i1-1]) || (i2 > 0 && chosenGene == og.Genes[i2-1]))
+//@     invariant [chosenBelowNext] (i1 < size1 ==> chosenGene.InnovationNum < g.Genes[i1].InnovationNum) && (i2 < size2 ==> chosenGene.InnovationNum < og.Genes[i2].InnovationNum)
+//@     invariant [childBelowChosen] forall k :: 0 <= k && k < len(newGenes) ==> newGenes[k].InnovationNum < chosenGene.InnovationNum
+//@   loop 5:
+//@     invariant -1 <= #idx && (newOutNode != nil ==> newOutNode.Id == outNode.Id)
+//@     invariant [chosen] chosenGene != nil && ((i1 > 0 && chosenGene == g.Genes[i1-1]) || (i2 > 0 && chosenGene == og.Genes[i2-1]))
+//@     invariant [chosenBelowNext] (i1 < size1 ==> chosenGene.InnovationNum < g.Genes[i1].InnovationNum) && (i2 < size2 ==> chosenGene.InnovationNum < og.Genes[i2].InnovationNum)
+//@     invariant [childBelowChosen] forall k :: 0 <= k && k < len(newGenes) ==> newGenes[k].InnovationNum < chosenGene.InnovationNum
